@@ -141,4 +141,32 @@ def ninit (cfg : Cfg) (dist : Nat → Nat) : Node := { up := true, vfile := none
 
 def nrun (cfg : Cfg) (dist : Nat → Nat) (ops : List NOp) : Node := nrunFrom cfg dist (ninit cfg dist) ops
 
+
+/-! ## "the same identity": the directory and the seed a start hands the record store
+
+`NetworkBuilder::build_node` (driver.rs) — regenerated into `Gen/Startup`:
+`storage_dir = root_dir.join("record_store")`, `historic_quote_dir = root_dir`,
+`encryption_seed = PeerId::from(self.keypair.public()).to_bytes()[..16]`; `with_config` derives the cipher from that seed
+alone. `amb` stands for everything that differs between two starts of the same node (time, process id, randomness):
+when a regenerated flag says an expression draws on such a thing, the definition below depends on `amb`. -/
+
+structure StoreOpening where
+  /-- `NodeRecordStoreConfig.storage_dir` -/
+  storageDir : String
+  /-- `NodeRecordStoreConfig.historic_quote_dir` -/
+  quoteDir : String
+  /-- `NodeRecordStoreConfig.encryption_seed` -/
+  seed : List Nat
+  /-- what the record cipher and the per-key nonce prefix are derived from -/
+  cipherInput : List Nat
+  deriving DecidableEq, Repr
+
+/-- what `build_node` opens the store with: node root directory `root`, peer id bytes `peer`, ambient `amb` -/
+def storeOpening (root : String) (peer : List Nat) (amb : Nat) : StoreOpening :=
+  let seed := if Gen.Startup.seedFromPeerId then peer.take Gen.Startup.seedBytes else [amb]
+  { storageDir := if Gen.Startup.storageDirStable then root ++ "/" ++ Gen.Startup.storageDirName else root ++ "/" ++ toString amb,
+    quoteDir := if Gen.Startup.quoteDirIsRoot then root else root ++ "/" ++ toString amb,
+    seed := seed,
+    cipherInput := if Gen.Startup.cipherFromSeedOnly then seed else amb :: seed }
+
 end SafeNet.Store
